@@ -2,7 +2,7 @@ use c20::global::{GCase, GInit, GObs};
 use c20::{Case, InitSpec, ObsSpec};
 use vcore::proptest::prelude::*;
 
-const RULE: &str = "a case is a workload on a fresh AmbientSlot: K in 0..=16 initialiser threads (each owning five components tagged with its index; method = Setup::try_init_slot | Setup::init_slot | AmbientSlot::init; generated spin skew; optionally emitting through its handle when it wins) and M in 0..=16 observer threads (generated skew, 1..=6 rounds of { poll is_enabled, emit an event, open+complete a span, blocking_flush } through slot.get(), generated polling budget and gaps), released together by a spin barrier; the main thread uses the slot before any thread starts and after all have joined. The schedule is whatever the OS scheduler produces (sampling, not enumeration). Second generator (global-slots): the same kind of workload against the two PROCESS-GLOBAL slots (emit::runtime::shared() via setup().init()/try_init(), internal() via init_internal()/try_init_internal() with AssertInternal components), one child process per case (this binary re-executed with a hidden argument, case on stdin, JSON report on stdout): K in 0..=12 initialisers, M in 0..=12 observers that take a &'static runtime reference EARLY (before the barrier, i.e. before initialisation) and use it afterwards and/or resolve a fresh reference at each use and/or use the macros' default path (emit! without rt:), with optional user code running INSIDE emit (a slow ToEvent, a slow when: filter) so that initialisation can complete while an emit is in flight; the main thread uses a fresh and an early reference before and after the race. Non-trivial = at least 2 racing initialisers and at least 1 concurrent observer (slot-race); at least 1 initialiser and 1 observer (global-slots).";
+const RULE: &str = "a case is a workload on a fresh AmbientSlot: K in 0..=16 initialiser threads (each owning five components tagged with its index; method = Setup::try_init_slot | Setup::init_slot | AmbientSlot::init; generated spin skew; optionally emitting through its handle when it wins) and M in 0..=16 observer threads (generated skew, 1..=6 rounds of { poll is_enabled, emit an event, open+complete a span, blocking_flush } through slot.get(), generated polling budget and gaps), released together by a spin barrier; the main thread uses the slot before any thread starts and after all have joined. The schedule is whatever the OS scheduler produces (sampling, not enumeration). Second generator (global-slots): the same kind of workload against the two PROCESS-GLOBAL slots (emit::runtime::shared() via setup().init()/try_init(), internal() via init_internal()/try_init_internal() with AssertInternal components), one child process per case (this binary re-executed with a hidden argument, case on stdin, JSON report on stdout): K in 0..=12 initialisers, M in 0..=12 observers that take a &'static runtime reference EARLY (before the barrier, i.e. before initialisation) and use it afterwards and/or resolve a fresh reference at each use and/or use the macros' default path (emit! without rt:), with optional user code running INSIDE emit (a slow ToEvent, a slow when: filter) so that initialisation can complete while an emit is in flight; the main thread uses a fresh and an early reference before and after the race. A child may initialise BOTH global slots (layout: shared only, internal only, shared first then a race on internal, internal first then a race on shared, or two sets of initialisers behind the same barrier), with observers on shared() and on internal(); the oracle is applied per slot. Non-trivial = at least 2 racing initialisers and at least 1 concurrent observer (slot-race); at least 1 initialiser and 1 observer (global-slots).";
 
 fn skew() -> impl Strategy<Value = u16> {
     prop_oneof![
@@ -46,12 +46,12 @@ fn case() -> impl Strategy<Value = Case> {
 
 fn ginit() -> impl Strategy<Value = GInit> {
     // initialisers start a little later than the observers so that observers are mid-emit when init lands
-    (0u8..2, skew(), any::<bool>()).prop_map(|(method, skew, post_emit)| GInit { method, skew: skew.saturating_add(200), post_emit })
+    (0u8..2, 0u8..2, skew(), any::<bool>()).prop_map(|(slot, method, skew, post_emit)| GInit { slot, method, skew: skew.saturating_add(200), post_emit })
 }
 
 fn gobs() -> impl Strategy<Value = GObs> {
     (
-        (0u8..4, skew(), 1u8..=6),
+        (0u8..2, 0u8..4, skew(), 1u8..=6),
         prop_oneof![2 => Just(0u16), 2 => 0u16..200, 1 => 200u16..5000],
         prop_oneof![3 => Just(0u16), 2 => 0u16..100, 1 => 0u16..2000],
         // user code inside emit: none, or 30..3000 spin iterations (roughly 0.1..10 us)
@@ -59,13 +59,16 @@ fn gobs() -> impl Strategy<Value = GObs> {
         prop::bool::weighted(0.5),
         prop::bool::weighted(0.4),
     )
-        .prop_map(|((ref_mode, skew, iters), poll, gap, inner_spin, do_span, do_flush)| GObs { ref_mode, skew, iters, poll, gap, inner_spin, do_span, do_flush })
+        .prop_map(|((slot, ref_mode, skew, iters), poll, gap, inner_spin, do_span, do_flush)| GObs { slot, ref_mode, skew, iters, poll, gap, inner_spin, do_span, do_flush })
 }
 
 fn gcase() -> impl Strategy<Value = GCase> {
     let k = prop_oneof![1 => Just(0usize), 6 => Just(1usize), 8 => 2usize..=4, 4 => 5usize..=12];
     let m = prop_oneof![1 => Just(0usize), 10 => 1usize..=4, 9 => 5usize..=12];
-    (0u8..2, k, m).prop_flat_map(|(slot, k, m)| (prop::collection::vec(ginit(), k..=k), prop::collection::vec(gobs(), m..=m)).prop_map(move |(inits, observers)| GCase { slot, inits, observers }))
+    // 0 shared only, 1 internal only, 2 shared first then race on internal, 3 internal first then race on shared,
+    // 4 both sets of initialisers behind the same barrier
+    let layout = prop_oneof![2 => Just(0u8), 2 => Just(1u8), 3 => Just(2u8), 2 => Just(3u8), 3 => Just(4u8)];
+    (layout, k, m).prop_flat_map(|(layout, k, m)| (prop::collection::vec(ginit(), k..=k), prop::collection::vec(gobs(), m..=m)).prop_map(move |(inits, observers)| GCase { layout, inits, observers }))
 }
 
 fn main() {
@@ -83,6 +86,7 @@ fn main() {
             "dropping the components of a losing initialiser is not an invocation of them",
             "each event is attributed to the filter consulted last on the emitting thread (emit is synchronous: filter, then emitter, on the caller's thread) and span events to the rng that produced the trace id shown to the filter when the span began",
             "global slots: an operation through a runtime reference taken BEFORE initialisation is either not delivered at all or delivered coherently (all of the winner's components); it is never required to be delivered. Operations through a fresh reference (or the macro default path) issued after is_enabled() was seen must be delivered. An event emitted with a call-site when: filter legitimately bypasses the winner's filter (the other components must still be the winner's). Class global:emit-straddles-init = some emit started before the thread had seen is_enabled() and is_enabled() was true right after it returned (initialisation completed while it was in flight or just around it): diagnostic only",
+            "both global slots in one process: each slot is judged on its own (K_slot >= 1 => exactly one attempt on THAT slot reports success, every other returns None / panics 'already initialized'); a loser is any attempt that REPORTED failure, whatever the slot did with its components: none of its components may ever be invoked; an event sent through shared()/internal() must have been served by the winner of that slot only. The order in which the two slots are initialised is not restricted by the property",
             "at most 3 cases run concurrently (each has up to 33 threads) to bound oversubscription; when a failure is replayed or shrunk the workload is re-run up to 200 times because the schedule is not part of the case",
         ],
         |s| {
@@ -98,6 +102,10 @@ fn main() {
             s.require("global:internal", 300);
             s.require("global:early-reference-used-after-init", 300);
             s.require("global:emit-straddles-init", 100);
+            s.require("global:both-slots", 150);
+            s.require("global:internal-after-shared", 60);
+            s.require("global:shared-after-internal", 40);
+            s.require("global:internal-concurrent-with-shared", 40);
             s.gen("global-slots", s.n(3_000, 60_000), gcase, c20::global::check_global);
         },
     )
